@@ -11,6 +11,7 @@ HOOK_COMMITS = [
     "4d43ddb",  # IdleInvoker state probe
     "7057f6d",  # mutable proto store snapshot
     "8b54f47",  # lock probes (directories, files, handle allocator, opened files pool, idle invoker, sector allocator)
+    "0f82fc5",  # non-blocking probe of the NFSv4.0 program lock
 ]
 
 # harness packages compiled by bin/setup (those of the registered checks)
